@@ -4,6 +4,7 @@ CONSTANTS
   Faithful = FALSE
   MaxReq = 2
 INVARIANT TypeOK
+INVARIANT AcyclicAgree
 INVARIANT EdgesSound
 INVARIANT Final
 INVARIANT SortEnabled
